@@ -142,8 +142,11 @@ type Op struct {
 	Vars     map[string]string   `json:"vars,omitempty"`
 	TS       *int64              `json:"ts"`
 	Ref      string              `json:"ref"`
-	Meta     [][2]string         `json:"meta"`
-	AM       []memstore.CAccMeta `json:"am"`
+	Runtime  string              `json:"runtime,omitempty"`
+	// Mut: which single input field this re-send of an earlier request changes (generator label)
+	Mut  string              `json:"mut,omitempty"`
+	Meta [][2]string         `json:"meta"`
+	AM   []memstore.CAccMeta `json:"am"`
 	// revert / transaction metadata
 	ID  uint64 `json:"id"`
 	AED bool   `json:"aed,omitempty"`
@@ -228,8 +231,10 @@ type Delta struct {
 }
 
 type OpOut struct {
-	Resp    Resp         `json:"resp"`
-	IH      string       `json:"ih"` // ComputeIdempotencyHash of the input
+	Resp Resp   `json:"resp"`
+	IH   string `json:"ih"` // ComputeIdempotencyHash of the input
+	// Req: the input as the controller receives it, field by field (see canonReq)
+	Req     string       `json:"req,omitempty"`
 	Machine []MachineObs `json:"machine,omitempty"`
 	Chart   []ChartRow   `json:"chartTable,omitempty"`
 	// ChartCanon: json.Marshal of the parsed chart (what snapshots show)
@@ -523,7 +528,7 @@ func bigOf(s string) *big.Int {
 func BuildCreate(op Op) (*ledgercontroller.CreateTransaction, error) {
 	req := bulking.TransactionRequest{
 		Timestamp: timeOf(op.TS), Reference: op.Ref, Metadata: metaOf(op.Meta),
-		AccountMetadata: accMetaOf(op.AM), Force: op.Force,
+		AccountMetadata: accMetaOf(op.AM), Force: op.Force, Runtime: ledger.RuntimeType(op.Runtime),
 	}
 	if op.K == KCreateP {
 		for _, p := range op.Postings {
@@ -620,6 +625,7 @@ func (e *Env) Run(ctx context.Context, op Op) OpOut {
 			}
 			p := params(op, *in)
 			out.IH = ledger.ComputeIdempotencyHash(p.Input)
+			out.Req = canonCreate(in)
 			var r *ledger.CreatedTransaction
 			log, r, hit, err = e.W.CreateTransaction(ctx, p)
 			if r != nil {
@@ -629,6 +635,7 @@ func (e *Env) Run(ctx context.Context, op Op) OpOut {
 			p := params(op, ledgercontroller.RevertTransaction{Force: op.Force, AtEffectiveDate: op.AED,
 				TransactionID: op.ID, Metadata: metaOf(op.Meta)})
 			out.IH = ledger.ComputeIdempotencyHash(p.Input)
+			out.Req = reqString("revert", "force", op.Force, "atEffectiveDate", op.AED, "id", op.ID, "metadata", canonMap(metaOf(op.Meta)))
 			var r *ledger.RevertedTransaction
 			log, r, hit, err = e.W.RevertTransaction(ctx, p)
 			if r != nil {
@@ -637,18 +644,22 @@ func (e *Env) Run(ctx context.Context, op Op) OpOut {
 		case KSaveTxMeta:
 			p := params(op, ledgercontroller.SaveTransactionMetadata{TransactionID: op.ID, Metadata: metaOf(op.Meta)})
 			out.IH = ledger.ComputeIdempotencyHash(p.Input)
+			out.Req = reqString("saveTxMeta", "id", op.ID, "metadata", canonMap(metaOf(op.Meta)))
 			log, hit, err = e.W.SaveTransactionMetadata(ctx, p)
 		case KSaveAcMeta:
 			p := params(op, ledgercontroller.SaveAccountMetadata{Address: op.Addr, Metadata: metaOf(op.Meta)})
 			out.IH = ledger.ComputeIdempotencyHash(p.Input)
+			out.Req = reqString("saveAccMeta", "address", op.Addr, "metadata", canonMap(metaOf(op.Meta)))
 			log, hit, err = e.W.SaveAccountMetadata(ctx, p)
 		case KDelTxMeta:
 			p := params(op, ledgercontroller.DeleteTransactionMetadata{TransactionID: op.ID, Key: op.Key})
 			out.IH = ledger.ComputeIdempotencyHash(p.Input)
+			out.Req = reqString("delTxMeta", "id", op.ID, "key", op.Key)
 			log, hit, err = e.W.DeleteTransactionMetadata(ctx, p)
 		case KDelAcMeta:
 			p := params(op, ledgercontroller.DeleteAccountMetadata{Address: op.Addr, Key: op.Key})
 			out.IH = ledger.ComputeIdempotencyHash(p.Input)
+			out.Req = reqString("delAccMeta", "address", op.Addr, "key", op.Key)
 			log, hit, err = e.W.DeleteAccountMetadata(ctx, p)
 		case KSchema:
 			sd, serr := schemaData(op)
@@ -664,6 +675,9 @@ func (e *Env) Run(ctx context.Context, op Op) OpOut {
 			}
 			p := params(op, ledgercontroller.InsertSchema{Version: op.Version, Data: sd})
 			out.IH = ledger.ComputeIdempotencyHash(p.Input)
+			if sdj, merr := json.Marshal(sd); merr == nil {
+				out.Req = reqString("insertSchema", "version", op.Version, "data", string(sdj))
+			}
 			var r *ledger.InsertedSchema
 			log, r, hit, err = e.W.InsertSchema(ctx, p)
 			if r != nil {
